@@ -504,6 +504,7 @@ static std::string step(const std::string& line) {
 }
 
 int main() {
+  setvbuf(stdout, nullptr, _IOLBF, 0);   // answers given before a sanitizer abort must not be lost
   int rc = vh::line_loop(step);
   drop_containers();
   g_str.clear();
